@@ -7,7 +7,7 @@ CONSTANTS
   CNames <- CNamesMC
   Threads = {1, 2}
   Shards = {0, 1}
-  Scenarios <- Scen09
+  Scenarios <- Scen09Sim
 SPECIFICATION Spec
 CHECK_DEADLOCK FALSE
 INVARIANTS
